@@ -196,12 +196,12 @@ def build_time(env, case):
     return lt, prof, sig, bkg
 
 
-def eval_time(env, sig, bkg, times):
+def eval_time(env, sig, bkg, times, rec=None):
     times = np.asarray(times, dtype=np.float64)
     tdm = make_tdm(times)
     with np.errstate(all='ignore'), warnings.catch_warnings():
         warnings.simplefilter('ignore')
-        (pd_s, grads) = sig.get_pd(tdm=tdm, params_recarray=env.rec)
+        (pd_s, grads) = sig.get_pd(tdm=tdm, params_recarray=env.rec if rec is None else rec)
         bkg.initialize_for_new_trial(tdm)
         (pd_b, _) = bkg.get_pd(tdm)
     return np.array(pd_s, dtype=np.float64), np.array(pd_b, dtype=np.float64)
@@ -252,13 +252,45 @@ def time_case(ctx, env, case, lines, checks):
     S_impl = float(sig._S)
     Sb_impl = float(bkg._S)
     # ---- model line
-    if p['kind'] == 'box':
-        head = ['T', 'box', fh(ts), fh(te)]
-    else:
-        head = ['T', 'gauss', fh(ts), fh(te), fh(float(prof.sigma_t))]
-    head += [str(len(ivs))] + [fh(x) for iv in ivs for x in iv] + [str(len(probes))] + [fh(t) for t in probes]
-    lines.append(' '.join(head))
+    def model_line(pr, pts):
+        if p['kind'] == 'box':
+            head = ['T', 'box', fh(float(pr.t_start)), fh(float(pr.t_stop))]
+        else:
+            head = ['T', 'gauss', fh(float(pr.t_start)), fh(float(pr.t_stop)), fh(float(pr.sigma_t))]
+        return ' '.join(head + [str(len(ivs))] + [fh(x) for iv in ivs for x in iv] + [str(len(pts))] + [fh(t) for t in pts])
+    lines.append(model_line(prof, probes))
     checks.append(('time', cdesc, {'S': S_impl, 'Sb': Sb_impl, 'probes': probes, 'sig': pd_s.tolist(), 'bkg': pd_b.tolist()}))
+    def do_update():
+        # ---- the same SignalTimePDF object after a parameter update through params_recarray (S must follow)
+        p2 = case.get('update')
+        if p2 is not None:
+            if p['kind'] == 'box':
+                rec2 = np.array([(p2['t0'], p2['tw'])], dtype=[('t0', np.float64), ('tw', np.float64)])
+            else:
+                rec2 = np.array([(p2['t0'], p2['sigma'])], dtype=[('t0', np.float64), ('sigma_t', np.float64)])
+            pts2 = sorted(set(probes) | {p2['t0'], float(p2['t0']) + 1.0 / 32})
+            try:
+                pd2, _ = eval_time(env, sig, bkg, pts2, rec=rec2)
+                S2 = float(sig._S)
+                cd2 = dict(cdesc, update=p2)
+                lines.append(model_line(prof, pts2))
+                checks.append(('time', cd2, {'S': S2, 'Sb': S2, 'probes': pts2, 'sig': pd2.tolist(), 'bkg': pd2.tolist()}))
+                ctx.count('time-param-update')
+                # predicate: no dependence on the earlier parameter values (fresh object gives the same density)
+                fresh_case = {'ivs': ivs, 'profile': dict(p2, kind=p['kind'])}
+                _, prof_f, sig_f, bkg_f = build_time(env, fresh_case)
+                if (float(prof_f.t_start), float(prof_f.t_stop)) == (float(prof.t_start), float(prof.t_stop)):
+                    pdf_, _ = eval_time(env, sig_f, bkg_f, pts2)
+                    if not all(same(a, b, 1e-12) for a, b in zip(pd2.tolist(), pdf_.tolist())):
+                        ctx.violation('SignalTimePDF.get_pd', 'stale-normalisation-after-parameter-update',
+                                      'density after set_params differs from a freshly constructed PDF with the same parameters',
+                                      case=cd2, impl=pd2.tolist()[:8], model=pdf_.tolist()[:8],
+                                      predicate='pd depends on the current parameters only')
+                    ctx.count('time-param-update-fresh-compared')
+            except Exception as ex:
+                ctx.violation('SignalTimePDF.get_pd', 'raises-' + type(ex).__name__, f'get_pd with updated parameters raised: {ex}',
+                              case=dict(cdesc, update=p2))
+
     ctx.count('time:' + p['kind'])
     ctx.count('time-place:' + p['place'])
     ctx.count(f'time-n:{len(ivs)}')
@@ -270,6 +302,7 @@ def time_case(ctx, env, case, lines, checks):
                               case=dict(cdesc, t=t), impl=v, predicate='pd(t) = 0 for t outside every [l,u)')
     if not (S_impl > 0 and math.isfinite(S_impl)):
         ctx.count('time-S-zero')
+        do_update()
         return
     ctx.count('time-S-positive')
     brk = {ts, te}
@@ -279,17 +312,19 @@ def time_case(ctx, env, case, lines, checks):
         brk |= {t0 + 0.5 * j * s for j in range(-17, 18)}
     xs, ws = quad_nodes(ivs, brk)
     if len(xs) == 0:
+        do_update()
         return
     q_s, q_b = eval_time(env, sig, bkg, xs)
     for name, qv in (('SignalTimePDF', q_s), ('BackgroundTimePDF', q_b)):
         total = float(np.sum(qv * ws))
         if not np.all(qv >= 0) or not all(v >= 0 for v in (pd_s if name[0] == 'S' else pd_b).tolist()):
             ctx.violation(name + '.get_pd', 'negative-density', 'a negative or NaN density value with S > 0',
-                          case=cdesc, impl=float(np.nanmin(qv)), predicate='pd >= 0')
+                          case=cdesc, impl=repr(qv[:5].tolist()), predicate='pd >= 0')
         if not abs(total - 1.0) <= 1e-6:
             ctx.violation(name + '.get_pd', 'not-normalised',
                           f'sum over on-time intervals of the quadrature of get_pd = {total!r}',
                           case=cdesc, impl=total, predicate='sum_I int_I pd = 1 (Gauss-Legendre, pieces cut at profile/interval edges)')
+    do_update()
 
 
 def compare_time(ctx, check, out):
@@ -330,7 +365,14 @@ def gen_time_case(ctx, rng, n=None):
     n = n or rng.choice([1, 1, 2, 2, 3, 3, 4, 5, 8, 13, 20, 30])
     origin = rng.choice([0, 1, 58000, -5])
     ivs = gen_intervals(rng, n, origin)
-    return {'ivs': ivs, 'profile': gen_profile(rng, ivs)}
+    case = {'ivs': ivs, 'profile': gen_profile(rng, ivs)}
+    if rng.random() < 0.5:
+        for _ in range(6):
+            p2 = gen_profile(rng, ivs)
+            if p2['kind'] == case['profile']['kind']:
+                case['update'] = p2
+                break
+    return case
 
 
 def time_corpus():
@@ -340,7 +382,11 @@ def time_corpus():
            {'ivs': ivs, 'profile': {'kind': 'box', 'place': 'edges', 't0': 2.9375, 'tw': 3.375}},
            {'ivs': ivs, 'profile': {'kind': 'gauss', 'place': 'span', 't0': 4.0, 'sigma': 1.0}},
            {'ivs': ivs, 'profile': {'kind': 'gauss', 'place': 'gap', 't0': 6.0, 'sigma': 0.0625}},
-           {'ivs': [(2.0, 2.0), (2.0, 3.0), (3.0, 3.5)], 'profile': {'kind': 'box', 'place': 'touching', 't0': 2.5, 'tw': 1.0}}]
+           {'ivs': [(2.0, 2.0), (2.0, 3.0), (3.0, 3.5)], 'profile': {'kind': 'box', 'place': 'touching', 't0': 2.5, 'tw': 1.0}},
+           {'ivs': ivs, 'profile': {'kind': 'box', 'place': 'test_signalpdf', 't0': 5.0, 'tw': 10.0},
+            'update': {'kind': 'box', 'place': 'inside', 't0': 3.0, 'tw': 2.0}},
+           {'ivs': ivs, 'profile': {'kind': 'gauss', 'place': 'span', 't0': 4.0, 'sigma': 1.0},
+            'update': {'kind': 'gauss', 'place': 'span', 't0': 8.5, 'sigma': 0.25}}]
     return out
 
 
@@ -550,7 +596,7 @@ def compare_z(ctx, zchecks, vals):
             mv = ['Ok'] if (isinstance(mv, tuple) and mv[0] == 'Ok') else ['Err', mv[1]]
             if isinstance(mg, tuple) and mg[0] == 'Ok':
                 i, j = divmod(mg[1], 1000)
-                mgc = ['Ok', float(hist[i, j])]
+                mgc = ['Ok', float(hist[i, j])] if (0 <= i < hist.shape[0] and 0 <= j < hist.shape[1]) else ['Ok', math.nan, 'bad-index']
             else:
                 mgc = ['Err', mg[1]]
             okv = (mv == iv)
@@ -571,6 +617,12 @@ def compare_z(ctx, zchecks, vals):
             nbe, nbs = len(cdesc['eE']) - 1, len(cdesc['eS']) - 1
             raw = [[0.0] * nbe for _ in range(nbs)]
             terms = [[[] for _ in range(nbe)] for _ in range(nbs)]
+            bad = [(i, j) for i, j in zip(bi, bj)
+                   if (i is not None and not 0 <= i < nbe) or (j is not None and not 0 <= j < nbs)]
+            if bad:
+                ctx.disagree('I3EnergyPDF.fill', cdesc, 'np.histogram2d bins', {'model_bins_out_of_range': bad[:5]},
+                             'model binning returns a bin index outside the histogram')
+                continue
             for (x, y, mcw, phw), i, j in zip(cdesc['ev'], bi, bj):
                 if i is None or j is None or phw == 0.0:
                     continue
@@ -824,6 +876,8 @@ def replay(ctx, rp):
     kind = c.get('kind')
     if kind == 'time':
         case = {'ivs': [tuple(iv) for iv in c['ivs']], 'profile': c['profile']}
+        if c.get('update'):
+            case['update'] = c['update']
         return run_cases(ctx, [case], [], [], 0)
     if kind == 'ehist':
         case = {k: c[k] for k in ('kind', 'eE', 'eS', 'smooth')}
